@@ -104,6 +104,11 @@ CHECKS = {
              'against the real function with os.environ compared before/after; a negative-control config (restore on success only) must be refuted by TLC.',
         note='Trusted: the counting proxies in harness/faults.py (collaborators replaced in the module namespace; heavy stages are cheap fakes), '
              'so faults inside the real heavy stages are represented by the stage call raising. No double faults, no BaseException-only exceptions.'),
+    'C04': dict(
+        category='model_checking', design='DESIGN.md section 4 C04',
+        technique='TLA+ spec (SphereMatch: Unlimited(result) and the greedy machine Consider/SkipBorder over a given closer-than relation with ranks and guard band; ChunkHash design model of the spatial hash with wrap and guard, with two negative controls TLC must refute) model-checked by TLC; every finished greedy behaviour run on the real spherematch with gcirc replaced by the rank table; every hash state run on the real chunks.assign/getbounds/get; real spherematch calls judged by Trace_SphereMatch against an independent longdouble oracle',
+        text='Model-checked: the selection logic for every relation/ranking/ties with n1<=3, n2<=2 (3), maxmatch 0..2 (3), and the flat-lattice hash for ring<=16. Geometric completeness on the sphere is explored, not exhausted: edge-aimed sets (edges read from the real chunks object), points just beyond margin/cosDecMin, pole clamp, RA seam, polar caps, chains, lattices on chunk edges, all-sky, permutations, chunk sizes 1.01..10 x L and default, match lengths 1 arcsec..30 deg.',
+        note='Trusted: TLC; the longdouble chord/atan2 oracle with guard band (1e-9 relative / 1e-12 deg: pairs inside it may be present or absent, ties in either order). Calls whose chunk grid would exceed 40,000 cells are skipped.'),
     'C05': dict(
         category='model_checking', design='DESIGN.md section 4 C05',
         technique="TLA+ spec (FoF: components by the chain relation; groups.__init__ and chunks.friendsoffriends transcribed as step functions/actions; 16 invariants incl. mapGroups[i]<=i) model-checked over all graphs x chunk covers; every (graph, cover) replayed through the real chunks.friendsoffriends/groups/renumbering; real spheregroup runs judged by Trace_FoF against the spec's components",
